@@ -262,6 +262,38 @@ def run_all(so, name, seed):
     return out
 
 
+def run_range(so, name, seed, lo, hi):
+    mod = build.load_ext(name, so)
+    n = 0
+    for fn, args in cases(seed)[lo:hi]:
+        try:
+            getattr(mod, fn)(*to_args(fn, args))
+        except BaseException:
+            pass
+        n += 1
+    return n
+
+
+def find_crashing_case(so, name, seed):
+    """The whole corpus run died: bisect (each probe in its own forked child) for a single case that crashes on its own."""
+    cs = cases(seed)
+    lo, hi = 0, len(cs)
+    st, _ = core.run_one_forked(run_range, so, name, seed, lo, hi, timeout=600)
+    if st == "ok":
+        return None
+    while hi - lo > 1:
+        mid = (lo + hi) // 2
+        st, _ = core.run_one_forked(run_range, so, name, seed, lo, mid, timeout=600)
+        if st != "ok":
+            hi = mid
+        else:
+            st2, _ = core.run_one_forked(run_range, so, name, seed, mid, hi, timeout=600)
+            if st2 == "ok":
+                return None         # only crashes in combination
+            lo = mid
+    return cs[lo]
+
+
 def run_case(so, name, case):
     mod = build.load_ext(name, so)
     fn, args = case
